@@ -1,6 +1,6 @@
 import json,sys
 for r in json.load(sys.stdin):
-    print(r['harness'], {k:r[k] for k in ['paths','pruned','exhausted','solver_queries','solver_time_s','wall_s','inconclusive','choice_forks']}, 'covers',r['covers'])
+    print(r['harness'], {k:r[k] for k in ['paths','pruned','exhausted','solver_queries','solver_time_s','wall_s','inconclusive','choice_forks','fallback_queries','fallback_time_s']}, 'covers',r['covers'])
     seen=set()
     for v in r['violations']:
         if v['check'] in seen: continue
